@@ -15,6 +15,7 @@ mod jslit_unit;
 mod ent_unit;
 mod cssmap_unit;
 mod rpx_unit;
+mod cssws_unit;
 
 pub struct Outcome {
     pub found: bool,
@@ -69,6 +70,8 @@ fn main() {
         ("CSSMAP", "run") => cssmap_unit::run(&input.unwrap()),
         ("RPX", "search") => rpx_unit::search(),
         ("RPX", "run") => rpx_unit::run(&input.unwrap()),
+        ("CSSWS", "search") => cssws_unit::search(),
+        ("CSSWS", "run") => cssws_unit::run(&input.unwrap()),
         ("TOTAL", "search") => total_unit::search(),
         ("TOTAL", "run") => total_unit::run(&input.unwrap()),
         _ => {
